@@ -158,4 +158,52 @@ theorem paddedRow_allwhite_shift (mods : List Bool) (h : ¬ true ∈ mods) :
   rw [paddedRow_allwhite _ _ _ _ h, paddedRow_allwhite _ _ _ _ h]
   congr 1; omega
 
+/-! ## what the nine symbologies have in common, and the generic pose theorems -/
+
+/-- `Readable`: the writer front end accepts `contents` and renders the module pattern `mods` with an effective margin of
+    `m ≥ 2` modules; the symbol has a bar; and the scanning reader's `DecodeRow` reads back every padded row with the
+    renderer's geometry, `Decode`'s post-processing turning that into (`sym`, `canonical`). -/
+structure Readable (E : Env) (sym : Sym) (ext39 : Bool) (contents : List Nat) (width height : Nat)
+    (margin forced : Option Nat) (canonical : List Nat) (mods : List Bool) (m : Nat) : Prop where
+  margin_ge : 2 ≤ m
+  bar : true ∈ mods
+  write : writeImage E.T sym contents (width : Int) (height : Int) (margin.map Int.ofNat) forced =
+    Render.render1D mods (width : Int) (height : Int) (m : Int)
+  read : ∀ (lq s rq : Nat) (rn : Int), 1 ≤ s → m * s ≤ lq + rq → lq = (lq + rq) / 2 → s ≤ max 1 width →
+    ∃ t, rowRead E ext39 (scanSym sym) rn (paddedRow lq s rq mods) = .ok t ∧ finishRead sym t = .ok (sym, canonical)
+
+/-- upright: content and format from the first scanned row, no orientation -/
+theorem upright_of_readable {E : Env} {sym : Sym} {ext39 : Bool} {contents : List Nat} {width height : Nat}
+    {margin forced : Option Nat} {canonical : List Nat} {mods : List Bool} {m : Nat}
+    (hR : Readable E sym ext39 contents width height margin forced canonical mods m) (binz : Binz) (th : Bool) :
+    imagePath E sym contents width height (margin.map Int.ofNat) forced .upright binz ext39 th =
+      .ok ⟨sym, canonical, max 1 height / 2, false, false, none⟩ := by
+  obtain ⟨img, res, himg, hdec, hP⟩ := path_upright (rowRead E ext39 (scanSym sym)) mods hR.bar width height m hR.margin_ge
+    binz th (fun t => finishRead sym t = .ok (sym, canonical)) hR.read
+  unfold imagePath
+  rw [hR.write, himg]
+  simp only [Pic.pose]
+  rw [readImage_generic, hdec]
+  simp only [hP]
+
+/-- upside down, when the scanning reader's `DecodeRow` refuses the reversed rendered rows with a reader exception:
+    the same content from the reversed middle row, ORIENTATION 180 -/
+theorem upside_down_of_readable {E : Env} {sym : Sym} {ext39 : Bool} {contents : List Nat} {width height : Nat}
+    {margin forced : Option Nat} {canonical : List Nat} {mods : List Bool} {m : Nat}
+    (hR : Readable E sym ext39 contents width height margin forced canonical mods m)
+    (hrefuse : ∀ (lq s rq : Nat) (rn : Int), 1 ≤ s → m * s ≤ lq + rq → lq = (lq + rq) / 2 → s ≤ max 1 width →
+      ∃ e, OneDScan.isReaderException e = true ∧
+        rowRead E ext39 (scanSym sym) rn (paddedRow lq s rq mods).reverse = .error e)
+    (binz : Binz) (th : Bool) :
+    imagePath E sym contents width height (margin.map Int.ofNat) forced .upsideDown binz ext39 th =
+      .ok ⟨sym, canonical, max 1 height / 2, true, false, some 180⟩ := by
+  obtain ⟨img, res, himg, hdec, hP⟩ := path_upside_down (rowRead E ext39 (scanSym sym)) mods hR.bar width height m
+    hR.margin_ge binz th (fun t => finishRead sym t = .ok (sym, canonical))
+    (fun lq s rq rn h1 h2 h3 h4 => ⟨hrefuse lq s rq rn h1 h2 h3 h4, hR.read lq s rq rn h1 h2 h3 h4⟩)
+  unfold imagePath
+  rw [hR.write, himg]
+  simp only [Pic.pose]
+  rw [readImage_generic, hdec]
+  simp only [hP]
+
 end Gzx.Image1DPath
